@@ -697,11 +697,12 @@ func checkSharedEntriesRefCounted(c *core.Ctx) {
 					if !ok || is.Pos() > call.Pos() {
 						return true
 					}
-					cmp := false
+					cmp := comparesCount(info, is.Cond)
+					// or the count is consulted by a helper whose result decides (one level): `if e.release(id) { delete … }`
 					ast.Inspect(is.Cond, func(z ast.Node) bool {
-						if be, ok := z.(*ast.BinaryExpr); ok && (be.Op == token.GTR || be.Op == token.GEQ || be.Op == token.LSS || be.Op == token.LEQ || be.Op == token.NEQ || be.Op == token.EQL) {
-							if _, isK := core.ConstVal(info, be.Y); isK {
-								if t := info.Types[be.X].Type; t != nil && basicKind(t) == types.Int {
+						if hc, ok := z.(*ast.CallExpr); ok && !cmp {
+							if f := core.Callee(info, hc); f != nil && f.Pkg() == p.Types {
+								if hd := declOf(p, f); hd != nil && hd.Body != nil && comparesCount(info, hd.Body) {
 									cmp = true
 								}
 							}
@@ -738,60 +739,34 @@ func checkSharedEntriesRefCounted(c *core.Ctx) {
 // function (R07.6: the function entry polls) and, when it passes through a host function calling back, a Call (R07.7: the
 // call entry polls the flag itself, not only ctx.Done).
 func checkEveryCyclePolls(c *core.Ctx) {
-	// R07.7: call entries
-	for _, e := range []struct{ name, rel string }{{"interpreter", "internal/engine/interpreter"}, {"compiler", wzv}} {
-		p := c.Pkg(e.rel)
-		if p == nil {
-			continue
+	// R07.7: call entries (decided on SSA, see callEntries)
+	{
+		wasmP := c.Pkg("internal/wasm")
+		var failIfClosed, closeOnCancel, closeWithCtxErr *types.Func
+		if wasmP != nil {
+			if mi, _ := wasmP.Types.Scope().Lookup("ModuleInstance").Type().(*types.Named); mi != nil {
+				failIfClosed = core.ImplMethod(wasmP.Types, mi, "FailIfClosed")
+				closeOnCancel = core.ImplMethod(wasmP.Types, mi, "CloseModuleOnCanceledOrTimeout")
+				closeWithCtxErr = core.ImplMethod(wasmP.Types, mi, "CloseWithCtxErr")
+			}
 		}
-		info := p.TypesInfo
-		found := false
-		core.AllFuncDecls(p, func(fd *ast.FuncDecl) {
-			ast.Inspect(fd.Body, func(x ast.Node) bool {
-				sel, ok := x.(*ast.SelectStmt)
-				if !ok {
-					return true
-				}
-				// the ctx.Done pre-check of a call entry: a select with a <-ctx.Done() case and a default
-				var deflt *ast.CommClause
-				done := false
-				for _, cl := range sel.Body.List {
-					cc := cl.(*ast.CommClause)
-					if cc.Comm == nil {
-						deflt = cc
-						continue
-					}
-					if strings.Contains(core.ExprStr(commExpr(cc.Comm)), "Done()") {
-						done = true
-					}
-				}
-				if !done || deflt == nil {
-					return true
-				}
-				// only the entries under the termination flag
-				if !underFlag(fd, sel) {
-					return true
-				}
-				found = true
-				polls := false
-				for _, st := range deflt.Body {
-					ast.Inspect(st, func(y ast.Node) bool {
-						if call, ok := y.(*ast.CallExpr); ok {
-							if f := core.Callee(info, call); f != nil && f.Name() == "FailIfClosed" {
-								polls = true
-							}
-						}
-						return true
-					})
-				}
-				c.Check(polls, "R07.7", e.name+" "+fd.Name.Name+": the call entry polls the closed flag", sel.Pos(),
-					"FailIfClosed is called when the context is not done yet",
+		for _, e := range []struct{ name, rel string }{{"interpreter", "internal/engine/interpreter"}, {"compiler", wzv}} {
+			if c.Pkg(e.rel) == nil {
+				continue
+			}
+			if failIfClosed == nil || closeOnCancel == nil || closeWithCtxErr == nil {
+				c.Undecided("R07.7", e.name+": ctx.Done pre-check of the call entry", 0, "ModuleInstance methods not found")
+				continue
+			}
+			efs := callEntries(c, e.rel, closeOnCancel, closeWithCtxErr, failIfClosed)
+			for _, ef := range efs {
+				c.Check(ef.polls, "R07.7", e.name+" "+ef.entry.Name()+": the call entry polls the closed flag", ef.watcher.Pos(),
+					"FailIfClosed is called, and its result used, when the context is not done yet",
 					"the call entry only looks at ctx.Done(): a module closed from another goroutine (CloseWithExitCode) is not noticed by a cycle that passes through a host function calling back into the module – each nested Call gets a fresh stack, so neither a loop header nor the stack ceiling is ever reached")
-				return true
-			})
-		})
-		if !found {
-			c.Undecided("R07.7", e.name+": ctx.Done pre-check of the call entry", 0, "not found")
+			}
+			if len(efs) == 0 {
+				c.Undecided("R07.7", e.name+": ctx.Done pre-check of the call entry", 0, "not found")
+			}
 		}
 	}
 	// R07.6 interpreter: the function that runs a body polls before its dispatch loop, under the flag
@@ -1119,4 +1094,20 @@ func checkRewindUnconditional(c *core.Ctx) {
 	if !found {
 		c.Undecided("R16.10", "rewind clause of the dirent cache", 0, "not found")
 	}
+}
+
+// comparesCount: the node contains a comparison of an int-typed expression with a constant.
+func comparesCount(info *types.Info, n ast.Node) bool {
+	cmp := false
+	ast.Inspect(n, func(z ast.Node) bool {
+		if be, ok := z.(*ast.BinaryExpr); ok && (be.Op == token.GTR || be.Op == token.GEQ || be.Op == token.LSS || be.Op == token.LEQ || be.Op == token.NEQ || be.Op == token.EQL) {
+			if _, isK := core.ConstVal(info, be.Y); isK {
+				if t := info.Types[be.X].Type; t != nil && basicKind(t) == types.Int {
+					cmp = true
+				}
+			}
+		}
+		return true
+	})
+	return cmp
 }
